@@ -2,6 +2,7 @@
 
 use std::sync::Arc;
 
+use event_listener::IntoNotification;
 use tracing::trace;
 
 use crate::metrics::CLOCK;
@@ -203,8 +204,10 @@ impl Scheduler {
 
         #[cfg(folo_verif)]
         crate::verif_hook::point("spawn:notify");
-        // Notify one worker that work is available.
-        state.wake_event.notify(1);
+        // Notify one more worker that work is available. A plain `notify(1)` is satisfied by a
+        // listener that was already notified for an earlier task and has not woken up yet, which
+        // would leave this task without a worker while others sleep.
+        state.wake_event.notify(1.additional());
 
         JoinHandle::new(receiver)
     }
@@ -265,8 +268,10 @@ impl Scheduler {
 
         #[cfg(folo_verif)]
         crate::verif_hook::point("spawn:notify");
-        // Notify one worker that work is available.
-        state.wake_event.notify(1);
+        // Notify one more worker that work is available. A plain `notify(1)` is satisfied by a
+        // listener that was already notified for an earlier task and has not woken up yet, which
+        // would leave this task without a worker while others sleep.
+        state.wake_event.notify(1.additional());
     }
 }
 
